@@ -14,8 +14,25 @@ def _base_name(e: ast.AST) -> Optional[str]:
     return e.id if isinstance(e, ast.Name) else None
 
 
+def _relevant(fn: ast.AST, sink: str, control: bool):
+    """(relevant names, relevant expressions) of a backward slice from the function result"""
+    rel: Set[str] = set()
+    relexprs: List[ast.AST] = []
+    rets = [n for n in ast.walk(fn) if isinstance(n, (ast.Return, ast.Yield, ast.YieldFrom)) and n.value is not None]
+    for r in rets:
+        rel |= names_in(r.value)
+        relexprs.append(r.value)
+    return rel, relexprs
+
+
+def param_flows_to_result(repo: Repo, f: FuncInfo, param: str, depth: int = 0) -> bool:
+    """does the value of `param` flow (data flow) into f's result?"""
+    got = slice_fields(repo, f, "\0none", None, depth + 1, set(), control=False, want_names=True)
+    return param in got
+
+
 def slice_fields(repo: Repo, f: FuncInfo, root: str, cls: Optional[str], depth: int = 0, seen: Optional[set] = None,
-                 sink: str = "return") -> Set[str]:
+                 sink: str = "return", control: bool = True, want_names: bool = False) -> Set[str]:
     """Fields of the object named `root` that are read in f on some path *and* flow into the result
     (return / yield value; or, with sink='self', into the object itself).  Methods and properties of the
     same object (root.m(), root.p) and super().m() are followed three levels deep."""
@@ -48,7 +65,7 @@ def slice_fields(repo: Repo, f: FuncInfo, root: str, cls: Optional[str], depth: 
             defs.append((names_in(n.target), n.value))
         elif isinstance(n, ast.AnnAssign) and n.value is not None:
             defs.append((names_in(n.target), n.value))
-        elif isinstance(n, (ast.For, ast.comprehension)):
+        elif isinstance(n, ast.For):
             defs.append((names_in(n.target), n.iter))
         elif isinstance(n, ast.Call) and isinstance(n.func, ast.Attribute) and n.func.attr in (
                 "append", "extend", "add", "update", "insert", "setdefault") and isinstance(n.func.value, (ast.Name, ast.Subscript, ast.Attribute)):
@@ -66,17 +83,20 @@ def slice_fields(repo: Repo, f: FuncInfo, root: str, cls: Optional[str], depth: 
                 relexprs.append(src)
                 rel |= names_in(src)
                 changed = True
-        for n in ast.walk(fn):
+        for n in (ast.walk(fn) if control else ()):
             if isinstance(n, (ast.If, ast.While, ast.IfExp)) and not any(n.test is x for x in relexprs):
                 inner = list(ast.walk(n))
                 if any(any(x is y for y in relexprs) for x in inner) or any(isinstance(x, (ast.Return, ast.Yield)) for x in inner):
                     relexprs.append(n.test)
                     rel |= names_in(n.test)
                     changed = True
+    if want_names:
+        return rel
     fields: Set[str] = set()
     for e in relexprs:
+        blocked = _blocked_by_callee(repo, f, e, root, depth) if depth < 3 else set()
         for n in ast.walk(e):
-            if isinstance(n, ast.Attribute) and isinstance(n.value, ast.Name) and n.value.id == root:
+            if isinstance(n, ast.Attribute) and isinstance(n.value, ast.Name) and n.value.id == root and id(n) not in blocked:
                 fields.add(n.attr)
     out: Set[str] = set()
     for fld in fields:
@@ -84,7 +104,7 @@ def slice_fields(repo: Repo, f: FuncInfo, root: str, cls: Optional[str], depth: 
         if m is not None and depth < 3 and (m.qn, fld) not in seen:
             seen.add((m.qn, fld))
             selfname = m.params[0] if m.params else "self"
-            out |= slice_fields(repo, m, selfname, m.cls, depth + 1, seen, sink="return")
+            out |= slice_fields(repo, m, selfname, m.cls, depth + 1, seen, sink="return", control=control)
         else:
             out.add(fld)
     for e in relexprs:
@@ -95,8 +115,31 @@ def slice_fields(repo: Repo, f: FuncInfo, root: str, cls: Optional[str], depth: 
                     m = repo.find_method(b, n.func.attr)
                     if m is not None and depth < 3 and (m.qn, "super") not in seen:
                         seen.add((m.qn, "super"))
-                        out |= slice_fields(repo, m, m.params[0], m.cls, depth + 1, seen)
+                        out |= slice_fields(repo, m, m.params[0], m.cls, depth + 1, seen, control=control)
     return out
+
+
+def _blocked_by_callee(repo: Repo, f: FuncInfo, e: ast.AST, root: str, depth: int) -> Set[int]:
+    """ids of `root.field` nodes that are handed to a helper of the repository whose result does not depend on that argument"""
+    blocked: Set[int] = set()
+    for c in ast.walk(e):
+        if not isinstance(c, ast.Call):
+            continue
+        cat, tg = repo.resolve_call(f, c)
+        if cat != "repo" or len(tg) != 1 or tg[0][1] is None:
+            continue
+        callee = tg[0][1]
+        if callee.qn == f.qn:
+            continue
+        params = list(callee.params)
+        if callee.is_method and isinstance(c.func, ast.Attribute):
+            params = params[1:]
+        bound = list(zip(params, c.args)) + [(k.arg, k.value) for k in c.keywords if k.arg]
+        for pn, arg in bound:
+            attrs = [n for n in ast.walk(arg) if isinstance(n, ast.Attribute) and isinstance(n.value, ast.Name) and n.value.id == root]
+            if attrs and pn in callee.params and not param_flows_to_result(repo, callee, pn, depth):
+                blocked |= {id(a) for a in attrs}
+    return blocked
 
 
 # ----------------------------------------------------------------------------- constructor field sources
